@@ -290,10 +290,44 @@ pub fn translate(repo: &str) -> String
     out.push_str("From Coq Require Import List NArith.\n");
     out.push_str("From Breadlog Require Import Model.Regex.\n");
     out.push_str("Import ListNotations.\nOpen Scope N_scope.\n\n");
-    let mut names = Vec::new();
-    for ls in lazy_statics(repo)
+    // by ROLE: the name at the pinned commit and the file; a renamed static is identified as the only
+    // Regex static of its file
+    let statics: Vec<LazyStatic> = lazy_statics(repo).into_iter().filter(|ls| ls.ty.contains("Regex")).collect();
+    let mut emitted = Vec::new();
+    for (role, file) in [("LOG_REF_PATTERN", "parser/code_parser.rs"), ("RUST_COMMENT_PATTERN", "parser/rust_parser.rs")]
     {
-        if !ls.ty.contains("Regex")
+        let by_name: Vec<&LazyStatic> = statics.iter().filter(|ls| ls.name == role).collect();
+        let ls = if by_name.len() == 1
+        {
+            by_name[0]
+        }
+        else
+        {
+            let in_file: Vec<&LazyStatic> = statics.iter().filter(|ls| ls.file.ends_with(file)).collect();
+            if in_file.len() != 1
+            {
+                refuse(&format!("regex static {} not found, and {} has {} Regex statics", role, file, in_file.len()));
+            }
+            out.push_str(&format!("(* {} is called {} in the source now *)\n", role, in_file[0].name));
+            in_file[0]
+        };
+        let pat = regex_literal(&ls.init).unwrap_or_else(|| {
+            refuse(&format!(
+                "initialiser of regex static {} in {} is not Regex::new(<literal>)",
+                ls.name, ls.file
+            ))
+        });
+        out.push_str(&format!("(* {} in {} : {:?} *)\n", role, ls.file, pat).replace("\"", "'"));
+        out.push_str(&format!(
+            "Definition re_{} : regex :=\n  {}.\n\n",
+            role,
+            pattern_to_gallina(&pat)
+        ));
+        emitted.push(ls.name.clone());
+    }
+    for ls in &statics
+    {
+        if emitted.contains(&ls.name)
         {
             continue;
         }
@@ -309,14 +343,6 @@ pub fn translate(repo: &str) -> String
             ls.name,
             pattern_to_gallina(&pat)
         ));
-        names.push(ls.name);
-    }
-    for required in ["LOG_REF_PATTERN", "RUST_COMMENT_PATTERN"]
-    {
-        if !names.iter().any(|n| n == required)
-        {
-            refuse(&format!("regex static {} not found", required));
-        }
     }
     let doc = documented_regex(repo);
     out.push_str(&format!("(* documented extraction regex: {} *)\n", doc).replace("\"", "'"));
